@@ -302,3 +302,9 @@ Print Assumptions C10_source_preselect_cover.
 Theorem C10_source_raman_allowed : forall prev maxl, g_raman_allowed prev maxl = raman_allowed prev maxl.
 Proof. exact gen_raman_allowed. Qed.
 Print Assumptions C10_source_raman_allowed.
+
+(* the ranking key: edfa_nf is template-matched whole (a fresh element of the library entry at hand, its noise figure at
+   the required gain) and network.py is checked to keep no state between calls; the translation fails otherwise *)
+Theorem C10_source_nf_of_entry_at_hand : g_nf_of_entry_at_hand = true.
+Proof. exact gen_nf_of_entry_at_hand. Qed.
+Print Assumptions C10_source_nf_of_entry_at_hand.
